@@ -2,6 +2,7 @@ import BddVerif.Props.C09
 import BddVerif.Lemmas.AlgoEqUtilSpec
 import BddVerif.Lemmas.AlgoEq2RenDriver
 import BddVerif.Props.C09F64
+import BddVerif.Lemmas.TraitTable
 #print axioms B.Props.C09.cnt_eq_filter_length
 #print axioms B.Props.C09.all_vals_enumeration
 #print axioms B.Props.C09.exact_card_spec
@@ -46,3 +47,4 @@ import BddVerif.Props.C09F64
 #print axioms B.Props.C09.cardinality_f64_exact_le52
 #print axioms B.Count.cardGoF_eq_fast
 #print axioms B.F64.add_comm
+#print axioms B.TraitTable.iterators_define_only_next
